@@ -44,6 +44,13 @@ def plan(tier, seed):
                           "alg": alg, "n": n, "delta": delta, "lr": lr,
                           "sketch": sk, "depth": depth,
                           "profile": {"x64": True}, "part": "sketched"})
+  # tiny scale: gradients times 2^-24 with delta = 2^-44 (the equivalence
+  # with full-matrix AdaGrad is scale free)
+  for n, sk in [(3, 3), (4, 3)]:
+    tasks.append({"name": "S_ADA/tiny/n%d/l%d" % (n, sk), "alg": "S_ADA",
+                  "n": n, "delta": 2.0**-44, "lr": 1.0, "sketch": sk,
+                  "gscale": 2.0**-24, "depth": depth,
+                  "profile": {"x64": True}, "part": "sketched"})
   for alg, sk in [("OGD", 0), ("ADA", 0), ("S_ADA", 3), ("S_ADA", 2)]:
     for n in [3, 4]:
       tasks.append({"name": "train/%s/n%d/l%d" % (alg, n, sk), "kind": "train",
@@ -162,7 +169,8 @@ def run_task(task):
   except Exception:  # pylint: disable=broad-except
     pass
   init, update = A.generate_init_update(wshape, hp)
-  ev = events(n)
+  gs = task.get("gscale", 1.0)
+  ev = {k: v * gs for k, v in events(n).items()}
   names = list(ev) if n >= 3 else ["a", "b", "c", "z"]
 
   @jax.jit
@@ -265,6 +273,33 @@ def run_task(task):
                     (lo, hi, nC), case)
     else:
       acc.outcome("bracket_ok")
+    if task["alg"] == "S_ADA" and np.all(np.isfinite(w)):
+      # the diagonal term *applied* in this step is delta + escaped mass
+      # including this step's: dw = lr [P' (alpha+s)^-1/2 P g + alpha^-1/2
+      # (g - P'P g)] with the state after the update
+      g_ = ev[e]
+      s_ = evals ** 2
+      inv_s = np.where(alpha + s_ > 0, (alpha + s_) ** -0.5, 0.0)
+      inv_a = alpha ** -0.5 if alpha > 0 else 0.0
+      pg = P @ g_
+      step_want = P.T @ (inv_s * pg) + inv_a * (g_ - P.T @ pg)
+      dw = (np.asarray(s["w"], np.float64).ravel() - w) / lr
+      sc_ = max(np.max(np.abs(step_want)), 1e-300)
+      if (0 < alpha < 1e-10 * max(float(np.max(alpha + s_)), 1e-300)) or \
+          np.max(np.abs(s["w"])) * 2.0**-52 > 1e-9 * sc_:
+        # (or an earlier noise-amplified step left an iterate so large that
+        # this step cannot be resolved in the difference of iterates)
+        # delta = 0 and a numerically (not exactly) zero escaped mass: the
+        # complement g - P'Pg is rounding noise multiplied by alpha^-1/2
+        acc.outcome("applied_diagonal_ill_conditioned")
+      elif np.max(np.abs(dw - step_want)) > 1e-8 * sc_:
+        acc.outcome("viol_applied_diagonal")
+        acc.violation(sig + "|applied", "the S-AdaGrad step is not built "
+                      "with the diagonal term delta + escaped mass of this "
+                      "step (rel dev %.3g)" %
+                      (np.max(np.abs(dw - step_want)) / sc_), case)
+      else:
+        acc.outcome("applied_diagonal_ok")
     if task["alg"] == "S_ADA":
       want = delta + r2["rho2"]
       if abs(alpha - want) > 1e-9 * max(1.0, want):
